@@ -79,6 +79,9 @@ RScan == UNION {RScanW(w) : w \in {IF Flavour = "c16" THEN R(2) ELSE 0}}
 BOp(t, k, v) == [t |-> t, k |-> k, v |-> v]
 ROp(good) == {BOp(IF r = 1 THEN "del" ELSE "put", k, v) : r \in {R(3)}, k \in (IF good THEN RGoodKey ELSE RKey),
                                                            v \in (IF good THEN RGoodVal ELSE RVal)}
+\* what the applier is handed: entries of every type the log accepts
+AOp == {BOp(IF r = 1 THEN "del" ELSE IF r = 2 THEN "merge" ELSE "put", k, v) : r \in {R(3)}, k \in RGoodKey, v \in RGoodVal}
+ABatch == {IF n = 1 THEN <<a>> ELSE IF n = 2 THEN <<a, b>> ELSE <<a, b, c>> : n \in {R(3)}, a \in AOp, b \in AOp, c \in AOp}
 RBatch(good) == {IF n = 1 THEN <<a>> ELSE IF n = 2 THEN <<a, b>> ELSE <<a, b, c>> :
                    n \in {R(3)}, a \in ROp(TRUE), b \in ROp(good), c \in ROp(good)}
 RPad(ops) == {IF r = 1 THEN MaxBatch - Len(ops) ELSE IF r = 2 THEN MaxBatch + 1 - Len(ops) ELSE 0 : r \in {R(12)}}
@@ -122,7 +125,8 @@ RandomStep ==
        /\ \/ \E k \in RGoodKey, v \in RGoodVal : Step([Q("apply_put") EXCEPT !.k = k, !.v = v])
           \/ \E k \in RGoodKey, v \in RGoodVal : Step([Q("apply_merge") EXCEPT !.k = k, !.v = v])
           \/ \E k \in RGoodKey : Step([Q("apply_del") EXCEPT !.k = k])
-          \/ \E ops \in RBatch(TRUE) : Step([Q("apply_batch") EXCEPT !.ops = ops])
+          \/ \E ops \in ABatch : Step([Q("apply_batch") EXCEPT !.ops = ops])
+          \/ \E ops \in ABatch : Step([Q("apply_entries") EXCEPT !.ops = ops])
           \* the mode switch (more often on a node that does not start read-only) and Manager.Stop
           \/ \E r \in {R(12)} : r <= (IF Role = "replica" THEN 2 ELSE 6) /\ Step([Q("setro") EXCEPT !.ro = (r % 2 = 1)])
           \/ R(10) = 1 /\ Step(Q("stoprepl"))
@@ -210,6 +214,9 @@ Scripts == <<
   << [Q("apply_put") EXCEPT !.k = K1, !.v = "v1"], [Q("get") EXCEPT !.k = K1], [Q("put") EXCEPT !.k = K1, !.v = "v2"],
      [Q("apply_merge") EXCEPT !.k = K2, !.v = "v2"], [Q("del") EXCEPT !.k = K2], [Q("put") EXCEPT !.via = "emb", !.k = K3, !.v = "v3"],
      [Q("apply_batch") EXCEPT !.ops = <<BOp("put", K3, "v3"), BOp("del", K2, "")>>],
+     [Q("apply_batch") EXCEPT !.ops = <<BOp("merge", K2, "v1"), BOp("del", K3, ""), BOp("merge", K3, "v2")>>], [Q("get") EXCEPT !.k = K2],
+     [Q("apply_entries") EXCEPT !.ops = <<BOp("put", K2, "v3"), BOp("merge", K3, "v3"), BOp("del", K2, "")>>], [Q("get") EXCEPT !.k = K3],
+     [Q("apply_merge") EXCEPT !.k = K2, !.v = "v2"], [Q("get") EXCEPT !.k = K2],
      [B(<<BOp("del", K3, "")>>, 0) EXCEPT !.via = "emb"], B(<<BOp("del", K3, "")>>, 0), [Q("del") EXCEPT !.via = "emb", !.k = K1],
      [Q("begin") EXCEPT !.ro = FALSE], Tx("txput", 1, K1, "v3"), Tx("txget", 1, K1, ""), [Q("apply_del") EXCEPT !.k = K1],
      Tx("txget", 1, K1, ""), [Q("txscan") EXCEPT !.h = 1], Tx("commit", 1, <<>>, ""),
